@@ -31,13 +31,28 @@ var ops = map[OpCode]OpFunc{
 	"-": func(left, right float64) float64 { return left - right },
 	"/": func(left, right float64) float64 { return left / right },
 	"^": math.Pow,
-	"%": func(left, right float64) float64 { return float64(int64(left) % int64(right)) },
+	"%": func(left, right float64) float64 {
+		if r := int64(right); r != 0 {
+			return float64(int64(left) % r)
+		}
+		return math.NaN() // like x/0, rather than an integer divide-by-zero panic
+	},
 
 	// Shift
-	"<<": func(left, right float64) float64 { return float64(int64(left) << int64(right)) },
-	">>": func(left, right float64) float64 { return float64(int64(left) >> int64(right)) },
-	"&":  func(left, right float64) float64 { return float64(int64(left) & int64(right)) },
-	"|":  func(left, right float64) float64 { return float64(int64(left) | int64(right)) },
+	"<<": func(left, right float64) float64 {
+		if n := int64(right); n >= 0 {
+			return float64(int64(left) << n)
+		}
+		return math.NaN() // negative shift count panics
+	},
+	">>": func(left, right float64) float64 {
+		if n := int64(right); n >= 0 {
+			return float64(int64(left) >> n)
+		}
+		return math.NaN()
+	},
+	"&": func(left, right float64) float64 { return float64(int64(left) & int64(right)) },
+	"|": func(left, right float64) float64 { return float64(int64(left) | int64(right)) },
 
 	// Comparisons
 	"<":  func(left, right float64) float64 { return conditionalOp(left < right) },
